@@ -3,6 +3,7 @@ package rules
 import (
 	"fmt"
 	"go/ast"
+	"go/token"
 	"go/types"
 	"sort"
 
@@ -105,27 +106,59 @@ func c18Lists(p *chk.Prog, r *chk.Report) {
 		return
 	}
 	from := isParamIdx(f, 0)
-	var lit *ast.CompositeLit
+	// the value handed to config.For as a map field -> expression: a ClusterResources literal, or a copy of the
+	// listed resources, each followed by field assignments that are executed on every path to the call
+	kv := map[string]ast.Expr{}
+	baseCopy, found := false, false
+	var pos token.Pos = f.Pos()
 	for _, c := range g.FindPat("config.For(R, V)", chk.H("V", isParamIdx(f, 1))) {
 		arg := c.Node.(*ast.CallExpr).Args[0]
+		pos = arg.Pos()
+		var base ast.Expr = arg
+		var obj types.Object
 		if id, ok := ast.Unparen(arg).(*ast.Ident); ok {
+			obj = f.ObjOf(id)
 			if rhs, _ := g.DefOf(id, c); rhs != nil {
-				lit, _ = ast.Unparen(rhs).(*ast.CompositeLit)
+				base = rhs
 			}
-		} else {
-			lit, _ = ast.Unparen(arg).(*ast.CompositeLit)
+		}
+		switch bx := ast.Unparen(base).(type) {
+		case *ast.CompositeLit:
+			found = true
+			for _, e := range bx.Elts {
+				if k, ok := e.(*ast.KeyValueExpr); ok {
+					kv[k.Key.(*ast.Ident).Name] = k.Value
+				}
+			}
+		default:
+			if from(base) {
+				found, baseCopy = true, true
+			}
+		}
+		if obj != nil {
+			for _, s := range g.Find(func(n ast.Node) bool {
+				as, ok := n.(*ast.AssignStmt)
+				if !ok || len(as.Lhs) != 1 || len(as.Rhs) != 1 {
+					return false
+				}
+				sel, ok := ast.Unparen(as.Lhs[0]).(*ast.SelectorExpr)
+				return ok && f.ObjOf(sel.X) == obj
+			}) {
+				as := s.Node.(*ast.AssignStmt)
+				name := ast.Unparen(as.Lhs[0]).(*ast.SelectorExpr).Sel.Name
+				top := s.Top
+				if w := g.MustPass(chk.Site{}, func(n ast.Node) bool { return n == c.Top }, false, func(n ast.Node) bool { return n == top }); w.Found {
+					found = false // a conditional override: the value handed on is not determined
+				}
+				kv[name] = as.Rhs[0]
+			}
 		}
 	}
-	if lit == nil {
-		x.Fail("toConfig:resources-literal", f.Pos(), "config.For is not called with a freshly built ClusterResources literal")
+	if !found {
+		x.Fail("toConfig:resources-literal", f.Pos(), "config.For is not called with a ClusterResources value built from the listed resources (a literal, or a copy with its lists replaced)")
 		return
 	}
-	kv := map[string]ast.Expr{}
-	for _, e := range lit.Elts {
-		if k, ok := e.(*ast.KeyValueExpr); ok {
-			kv[k.Key.(*ast.Ident).Name] = k.Value
-		}
-	}
+	lit := posNode(pos)
 	st := crT.Underlying().(*types.Struct)
 	for i := 0; i < st.NumFields(); i++ {
 		fld := st.Field(i)
@@ -135,7 +168,7 @@ func c18Lists(p *chk.Prog, r *chk.Report) {
 			ok := v != nil && f.MatchWith("sortedCopy(X."+fld.Name()+")", v, chk.H("X", from)) != nil
 			x.Check("toConfig:"+fld.Name()+":sorted", lit.Pos(), ok, "", "the listed "+fld.Name()+" reach config.For in API listing order (not passed through sortedCopy)")
 		} else {
-			ok := v != nil && f.MatchWith("X."+fld.Name(), v, chk.H("X", from)) != nil
+			ok := (v == nil && baseCopy) || (v != nil && f.MatchWith("X."+fld.Name(), v, chk.H("X", from)) != nil)
 			x.Check("toConfig:"+fld.Name()+":copied", lit.Pos(), ok, "", "field "+fld.Name()+" is not taken from the listed resources")
 		}
 	}
